@@ -532,3 +532,16 @@ Proof.
   assert (Hcor : fk_corresponds (model_case cfg m h qh qi) = true) by apply model_obs_matches.
   split; [exact Hcor | apply c18_moving_lib_proof; assumption].
 Qed.
+
+(* the theorem-scope filter written with the names visible from the check's imports (driver/thm_C18.json carries this
+   text as "thm_scope") *)
+Definition c18_moving_thm_scope_inline : fk_case -> bool :=
+  (fun k => match k_mode k with
+            | LExcl r0 | LIncl r0 =>
+                filt_nu k && filt_irr k && BV.Spec.C01_Moving_Spec.moving_scope_b r0 (k_hist k) &&
+                forallb (fun b => memN (bid b) (k_qi k) && memN (bnum b) (k_qh k)) (k_hist k)
+            | LNone => false
+            end).
+
+Lemma c18_moving_thm_scope_inline_eq k : c18_moving_thm_scope_inline k = c18_moving_thm_scope k.
+Proof. reflexivity. Qed.
